@@ -141,13 +141,14 @@ Proof. vm_compute. reflexivity. Qed.
     - [C19_match_spec_nonplain_refuted]: for names that are not plain the equivalence is FALSE of
       Go's Match (a multi-byte rune after '*' here; '/' matched by a class is the other case:
       Example C19_match_separator_quirk), reproduced on the real code by the tie.
-    - ErrBadPattern: [C19_match_bad_partial]: Bad only on malformed patterns (one direction);
-      [C19_match_bad_exact_refuted]: not on every malformed pattern -- Go reports a bad chunk
-      only when the scan reaches it.
-    Missing (PARTIAL): "Match = Ok true only for well-formed patterns" and the exact
-    reached-chunk characterisation of Bad (needs a simulation between scan's [inrange] flag and
-    matchChunk's class parser on MALFORMED input); covered by the exhaustive tie (all patterns
-    <= 4/5 symbols over {a,b,*,?,[,],-,\,^} x all names <= 3, model = Go, Go vs reference). *)
+    - ErrBadPattern.  "Exactly on malformed patterns" is refuted ([C19_match_bad_exact_refuted]:
+      Go reports a bad chunk only when the scan reaches it); what holds exactly
+      ([C19_match_malformed_except], every pattern, every name, any bytes):
+      Match never runs out of fuel or panics; it answers true ONLY for well-formed patterns;
+      ErrBadPattern only for malformed ones; so a malformed pattern is answered ErrBadPattern or
+      (false, nil); and a malformed FIRST chunk (always reached) gives ErrBadPattern for every
+      name.  (Which later chunk is reached is the greedy scan itself: C19_match_spec describes
+      it on well-formed prefixes.) *)
 From Atlas Require Import Excl.GlobSpec Excl.GlobProofs Excl.GlobStar.
 
 Theorem C19_match_spec :
@@ -169,9 +170,23 @@ Proof.
 Qed.
 Print Assumptions C19_match_chunk.
 
-Theorem C19_match_bad_partial : forall p s, Match p s = Bad -> ~ WellFormed p.
-Proof. exact Match_bad_malformed. Qed.
-Print Assumptions C19_match_bad_partial.
+Theorem C19_match_malformed_except :
+  forall p s,
+    ((exists b, Match p s = Ok b) \/ Match p s = Bad)
+    /\ (Match p s = Ok true -> WellFormed p)
+    /\ (Match p s = Bad -> ~ WellFormed p)
+    /\ (~ WellFormed p -> Match p s = Bad \/ Match p s = Ok false)
+    /\ (forall star chunk rest, p <> [] -> scanChunk p = (star, chunk, rest) -> star && is_nil chunk = false ->
+           (forall items, ~ (Parses chunk items /\ no_star items)) -> Match p s = Bad).
+Proof.
+  intros p s. split; [|split; [|split; [|split]]].
+  - destruct (Match_inv p s) as [[_ H]|H]; [left; exact H|right; exact H].
+  - destruct (Match_inv p s) as [[H _]|H]; [exact H|intros E; congruence].
+  - exact (Match_bad_malformed p s).
+  - exact (Match_malformed p s).
+  - intros star chunk rest. exact (Match_bad_first_chunk p s star chunk rest).
+Qed.
+Print Assumptions C19_match_malformed_except.
 
 (** the equivalence does not extend to every name: Match("*?*?x", "\u20acx") = false, although
     under the declarative relation (a star may take any bytes but '/') * = E2, ? = 82, * = "",
